@@ -40,3 +40,52 @@ package offset
 //@     set nrename := nrename + 1
 //@   callee getTmpPath()
 //@     pure
+
+// Load reads the committed snapshot only: the one file it opens is o.path (never the
+// temporary file, which is by construction the not-yet-complete snapshot), and it is
+// opened once.
+
+//@ func (*Offset).Load
+//@   ghost nopen int = 0
+//@   ensures nopen == 1
+//@   callee Open(name) (f, err)
+//@     requires name == o.path && nopen == 0
+//@     pure
+//@     set nopen := nopen + 1
+//@   callee IsNotExist(e) (r)
+//@     pure
+//@   callee Load(r) (err)
+//@     pure
+//@   callee Load$1(f)
+//@     pure
+//@   callee Close()
+//@     pure
+//@   callee getTmpPath()
+//@     pure
+
+//@ func NewOffset
+//@   ensures result != nil && result.path == path
+
+// yamlValue: the document is decoded straight into the caller's value, once, and
+// encoded straight from it (no detour through another representation: a detour
+// through float64 rounds int64 offsets above 2^53 - possibly upwards).
+
+//@ func (*yamlValue).Load
+//@   ghost nun int = 0
+//@   ensures result == nil ==> nun == 1
+//@   callee ReadAll(r) (b, err)
+//@     pure
+//@   callee Unmarshal(b, v) (err)
+//@     requires v == o.value && nun == 0
+//@     pure
+//@     set nun := nun + 1
+
+//@ func (*yamlValue).Save
+//@   ghost nm int = 0
+//@   ensures result == nil ==> nm == 1
+//@   callee Marshal(v) (b, err)
+//@     requires v == o.value && nm == 0
+//@     pure
+//@     set nm := nm + 1
+//@   callee Write(b) (n, err)
+//@     pure
